@@ -47,6 +47,22 @@ def strategy(draw):
                     k += 1
                     op['dsname'] = f"LF{i}-DS{k}"
     spec['mode'] = mode
+    if len(spec['lfs']) > 1 and spec['write'].get('source', 'inline') == 'inline' and draw(st.integers(0, 2)) == 0:
+        # every channel keeps its own array (given at add_channel), the logical files use the same channel / dataset names,
+        # and write() is additionally handed a dict (holding only an unrelated entry): each logical file must still be
+        # written from its own arrays
+        first = [op for op in spec['lfs'][0]['ops'] if op['t'] == 'channel']
+        for lf in spec['lfs'][1:]:
+            used = {op['name'] for op in lf['ops'] if op['t'] == 'channel'}
+            for k, op in enumerate(o for o in lf['ops'] if o['t'] == 'channel'):
+                if k < len(first) and first[k]['name'] not in used:
+                    used.discard(op['name'])
+                    op['name'] = first[k]['name']
+                    used.add(op['name'])
+        spec['write']['source'] = 'mixed'
+        spec['write']['opts'] = {'inline_ops': sorted({j for lf in spec['lfs'] for j, op in enumerate(lf['ops'])
+                                                       if op['t'] == 'channel'}), 'extra': [0]}
+        spec['own_arrays_plus_dict'] = True
     if len(spec['lfs']) > 1 and draw(st.integers(0, 5)) == 0:
         # a frame of a later logical file is handed a channel OBJECT of an earlier logical file (with or without a
         # same-named twin of its own): the reference cannot resolve inside its logical file, so write() must refuse
@@ -116,6 +132,8 @@ class C18(Property):
         nfr = sum(1 for lf in spec['lfs'] for op in lf['ops'] if op['t'] == 'frame')
         labels = ['mode:' + mode, f"lfs:{len(spec['lfs'])}"] + (['shared-set-name'] if shared else [])
         nt = shared or (nfr >= 2 and len(rows) >= 2)
+        if spec.pop('own_arrays_plus_dict', False):
+            labels.append('own-arrays-plus-dict-at-write')
         foreign = spec.pop('foreign', None)
         log = spec.pop('log', 'WARNING')
         if foreign:
